@@ -94,7 +94,7 @@ def dispatch(ctx, obs, rule='EXH'):
     q = M + 'compare'
     f = prog.func(q)
     r = ctx.dep.result(q)
-    form, arms = string_dispatch(f, 'method')
+    form, arms = string_dispatch(f, 'method', prog.module_of(f).tree)
     if form is None:
         obs.unk(rule, q, 'every method string dispatches to its comparison function', 'dispatch on `method` not recognised (neither an '
                 'if/elif chain nor a consulted table)', where(prog, f, f.node))
